@@ -84,6 +84,7 @@ var Alphabets = map[string][]string{
 	"c16":    {"a", " ", "\n", "-", ">", "`", "#", "=", "[", "]", ":", "1", "."},
 	"html":   {"<", ">", "!", "-", "?", "/", "s", "[", "]", " ", "\n", "\"", "a"},
 	"c17":    {"<", ">", "!", "-", "?", "/", "script", " ", "\"", "a", "\n"},
+	"c04":    {"`", "~", "\\", " ", "a", "\n", "[", "]", "(", ")", "<", ">", "\"", "&", "-", "\t"},
 }
 
 func parseSmallProfile(profile string) ([]string, int) {
